@@ -359,6 +359,13 @@ func (s *Store[H]) DeleteRange(ctx context.Context, from, to uint64) error {
 	// above it, which is enough to resume a tail-side deletion but would leave the head
 	// pointing at a deleted header.
 	actualTo, _, deleteErr := s.deleteRangeRaw(ctx, from, to, !updateHead)
+	if deleteErr != nil && actualTo >= from && actualTo < to && !s.storedAt(ctx, actualTo) {
+		// On a datastore without atomic batches the deletion of the header it stopped at may have been
+		// interrupted between its two writes: a header that cannot be read any more counts as deleted,
+		// otherwise a pointer would be left on it.
+		s.evictAt(ctx, actualTo)
+		actualTo++
+	}
 	if wipe && deleteErr == nil {
 		if err := s.wipe(ctx); err != nil {
 			return fmt.Errorf("header/store: wipe: %w", err)
@@ -410,6 +417,28 @@ func (s *Store[H]) DeleteRange(ctx context.Context, from, to uint64) error {
 	}
 
 	return nil
+}
+
+// storedAt reports whether the datastore still holds both the height index entry and the header of the given height.
+func (s *Store[H]) storedAt(ctx context.Context, height uint64) bool {
+	hash, err := s.heightIndex.HashByHeight(ctx, height, false)
+	if err != nil {
+		return false
+	}
+	ok, err := s.ds.Has(ctx, hashKey(hash))
+	return err == nil && ok
+}
+
+// evictAt drops what is left of a half-deleted header of the given height: cache entries and,
+// as far as the datastore lets it, the height index entry.
+func (s *Store[H]) evictAt(ctx context.Context, height uint64) {
+	if hash, err := s.heightIndex.HashByHeight(ctx, height, false); err == nil {
+		s.cache.Remove(hash.String())
+	}
+	s.heightIndex.cache.Remove(height)
+	if err := s.ds.Delete(ctx, heightKey(height)); err != nil {
+		log.Debugw("removing the index entry of a half-deleted header", "height", height, "err", err)
+	}
 }
 
 // deleteRangeRaw deletes [from:to) header range without updating head or tail pointers.
